@@ -1434,7 +1434,98 @@ func (e *RaceEngine) locksets(r *Role) {
 	}
 }
 
+// postRendezvousFns: functions an RPC handler calls after one of its rendezvous calls returned.
+// The core loop has resumed by then, in whatever state the request left: what these functions read
+// is read while the processing goroutines run.
+func (e *RaceEngine) postRendezvousFns() map[*ssa.Function]bool {
+	out := map[*ssa.Function]bool{}
+	if e.rv == nil {
+		return out
+	}
+	reachesQueue := map[*ssa.Function]int{} // 1 yes, 2 no
+	var rq func(f *ssa.Function, d int) bool
+	rq = func(f *ssa.Function, d int) bool {
+		if f == nil || f.Blocks == nil || d > 4 {
+			return false
+		}
+		if e.rv.Queues[f] {
+			return true
+		}
+		if v, ok := reachesQueue[f]; ok {
+			return v == 1
+		}
+		reachesQueue[f] = 2
+		res := false
+		Instrs(f, func(in ssa.Instruction) {
+			if _, isGo := in.(*ssa.Go); isGo || res {
+				return
+			}
+			if cc := CallOf(in); cc != nil {
+				if g := cc.StaticCallee(); g != nil && inModule(g) && rq(g, d+1) {
+					res = true
+				}
+			}
+		})
+		if res {
+			reachesQueue[f] = 1
+		}
+		return res
+	}
+	var mark func(f *ssa.Function, d int)
+	mark = func(f *ssa.Function, d int) {
+		if f == nil || out[f] || f.Blocks == nil || !inModule(f) || d > 6 {
+			return
+		}
+		out[f] = true
+		Instrs(f, func(in ssa.Instruction) {
+			if _, isGo := in.(*ssa.Go); isGo {
+				return
+			}
+			if CallOf(in) == nil {
+				return
+			}
+			for _, c := range e.p.callees(in) {
+				mark(c, d+1)
+			}
+		})
+	}
+	for _, h := range e.rv.Handlers {
+		var rvCalls []ssa.Instruction
+		Instrs(h, func(in ssa.Instruction) {
+			if cc := CallOf(in); cc != nil {
+				if g := cc.StaticCallee(); g != nil && inModule(g) && rq(g, 0) {
+					rvCalls = append(rvCalls, in)
+				}
+			}
+		})
+		if len(rvCalls) == 0 {
+			continue
+		}
+		Instrs(h, func(in ssa.Instruction) {
+			if CallOf(in) == nil {
+				return
+			}
+			after := false
+			for _, rc := range rvCalls {
+				if in != rc && InstrReaches(rc, in) {
+					after = true
+				}
+			}
+			if !after {
+				return
+			}
+			for _, c := range e.p.callees(in) {
+				if c != nil && inModule(c) && !rq(c, 0) {
+					mark(c, 0)
+				}
+			}
+		})
+	}
+	return out
+}
+
 func (e *RaceEngine) collect() {
+	postRV := e.postRendezvousFns()
 	for _, r := range e.Roles {
 		var fns []*ssa.Function
 		for f := range r.Reach {
@@ -1462,6 +1553,13 @@ func (e *RaceEngine) collect() {
 					if nt, ok := u.Type().(*types.Named); ok {
 						if _, isSt := nt.Underlying().(*types.Struct); isSt && nt.Obj().Pkg() != nil && strings.HasPrefix(nt.Obj().Pkg().Path(), modPath) {
 							e.stars = append(e.stars, RAccess{FieldKey{ownerName(nt), "*"}, false, a.Instr, fn, held[a.Instr], r})
+							// a copy made by a handler after its request was served also reads every
+							// struct held by value inside (the processing goroutines are running again)
+							if r.ID == "rpc" && postRV[fn] {
+								for _, inner := range nestedValueStructs(nt, 3) {
+									e.stars = append(e.stars, RAccess{FieldKey{ownerName(inner), "*"}, false, a.Instr, fn, held[a.Instr], r})
+								}
+							}
 						}
 					}
 				}
@@ -2750,4 +2848,35 @@ func sameIteration(a *ssa.Alloc, g ssa.Instruction) bool {
 	// every cycle through g's block passes a's block: g cannot reach itself avoiding a
 	back := ReachAvoiding(g.Parent(), g, func(in ssa.Instruction) bool { return in == ssa.Instruction(a) }, func(in ssa.Instruction) bool { return in == g })
 	return len(back) == 0
+}
+
+// nestedValueStructs: the module struct types held by value (fields, embedded or not) inside nt,
+// transitively up to depth levels.
+func nestedValueStructs(nt *types.Named, depth int) []*types.Named {
+	var out []*types.Named
+	seen := map[*types.Named]bool{nt: true}
+	var walk func(t *types.Named, d int)
+	walk = func(t *types.Named, d int) {
+		st, ok := t.Underlying().(*types.Struct)
+		if !ok || d == 0 {
+			return
+		}
+		for i := 0; i < st.NumFields(); i++ {
+			ft, ok := st.Field(i).Type().(*types.Named)
+			if !ok || seen[ft] {
+				continue
+			}
+			if _, isSt := ft.Underlying().(*types.Struct); !isSt {
+				continue
+			}
+			if ft.Obj().Pkg() == nil || !strings.HasPrefix(ft.Obj().Pkg().Path(), modPath) {
+				continue
+			}
+			seen[ft] = true
+			out = append(out, ft)
+			walk(ft, d-1)
+		}
+	}
+	walk(nt, depth)
+	return out
 }
